@@ -218,6 +218,53 @@ structure WServerCrypto where
   encrypt : WServerEnc
 deriving Repr, DecidableEq
 
+/-! facade methods of `ClientCrypto` / `ServerCrypto` delegate to the halves; `split` hands out the two fields -/
+def WClientCrypto.split (c : WClientCrypto) : Rc4 × WClientDec := (c.encrypt, c.decrypt)
+def WServerCrypto.split (c : WServerCrypto) : WServerEnc × Rc4 := (c.encrypt, c.decrypt)
+def WClientCrypto.encryptData (c : WClientCrypto) (data : Bytes) : Out (WClientCrypto × Bytes) := do
+  let (r, out) ← c.encrypt.apply data
+  pure ({ c with encrypt := r }, out)
+def WClientCrypto.decryptData (c : WClientCrypto) (data : Bytes) : Out (WClientCrypto × Bytes) := do
+  let (d, out) ← c.decrypt.decrypt data
+  pure ({ c with decrypt := d }, out)
+def WClientCrypto.encryptClientHeader (c : WClientCrypto) (size opcode : Nat) : Out (WClientCrypto × Bytes) := do
+  let (r, out) ← wClientEncryptHeader c.encrypt size opcode
+  pure ({ c with encrypt := r }, out)
+def WClientCrypto.writeClientHeader (c : WClientCrypto) (size opcode : Nat) (script : List WEv) :
+    Out (IoRes WClientCrypto Unit Bytes) := do
+  let r ← wClientWriteHeader c.encrypt size opcode script
+  pure ⟨{ c with encrypt := r.state }, r.result, r.rest⟩
+def WClientCrypto.attempt (c : WClientCrypto) (buf : Bytes) : Out (WClientCrypto × WAttempt) := do
+  let (d, a) ← c.decrypt.attempt buf
+  pure ({ c with decrypt := d }, a)
+def WClientCrypto.decryptLarge (c : WClientCrypto) (byte : UInt8) : Out (WClientCrypto × (Nat × Nat)) := do
+  let (d, h) ← c.decrypt.decryptLarge byte
+  pure ({ c with decrypt := d }, h)
+def WClientCrypto.readServerHeader (c : WClientCrypto) (script : List REv) :
+    Out (IoRes WClientCrypto (Nat × Nat) (List REv)) := do
+  let r ← c.decrypt.readServerHeader script
+  pure ⟨{ c with decrypt := r.state }, r.result, r.rest⟩
+def WServerCrypto.encryptData (c : WServerCrypto) (data : Bytes) : Out (WServerCrypto × Bytes) := do
+  let (e, out) ← c.encrypt.encrypt data
+  pure ({ c with encrypt := e }, out)
+def WServerCrypto.decryptData (c : WServerCrypto) (data : Bytes) : Out (WServerCrypto × Bytes) := do
+  let (r, out) ← c.decrypt.apply data
+  pure ({ c with decrypt := r }, out)
+def WServerCrypto.encryptServerHeader (c : WServerCrypto) (size opcode : Nat) : Out (WServerCrypto × Bytes) := do
+  let (e, out) ← c.encrypt.encryptServerHeader size opcode
+  pure ({ c with encrypt := e }, out)
+def WServerCrypto.writeServerHeader (c : WServerCrypto) (size opcode : Nat) (script : List WEv) :
+    Out (IoRes WServerCrypto Unit Bytes) := do
+  let r ← c.encrypt.writeServerHeader size opcode script
+  pure ⟨{ c with encrypt := r.state }, r.result, r.rest⟩
+def WServerCrypto.decryptClientHeader (c : WServerCrypto) (data : Bytes) : Out (WServerCrypto × (Nat × Nat)) := do
+  let (r, h) ← wServerDecryptHeader c.decrypt data
+  pure ({ c with decrypt := r }, h)
+def WServerCrypto.readClientHeader (c : WServerCrypto) (script : List REv) :
+    Out (IoRes WServerCrypto (Nat × Nat) (List REv)) := do
+  let r ← wServerReadHeader c.decrypt script
+  pure ⟨{ c with decrypt := r.state }, r.result, r.rest⟩
+
 def WClientCrypto.new (C : Crypto) (K : Bytes) : Out WClientCrypto := do
   let d ← WClientDec.new C K
   let e ← WClientEnc.new C K
